@@ -55,9 +55,11 @@ void TaskSetBase::trySetCurrentException() {
 #if defined(__cpp_exceptions)
   auto status = kUnset;
   if (guardException_.compare_exchange_strong(status, kSetting, std::memory_order_acq_rel)) {
+    DISPENSO_VERIF_HOOK("ts.capture", this, 0, 0);
     exception_ = std::current_exception();
     guardException_.store(kSet, std::memory_order_release);
     canceled_.store(true, std::memory_order_release);
+    DISPENSO_VERIF_HOOK("ts.cancel", this, 1, 0);
   }
 #endif // __cpp_exceptions
 }
@@ -67,6 +69,7 @@ inline bool TaskSetBase::testAndResetException() {
   if (guardException_.load(std::memory_order_acquire) == kSet) {
     auto exception = std::move(exception_);
     guardException_.store(kUnset, std::memory_order_release);
+    DISPENSO_VERIF_HOOK("ts.rethrow", this, 0, 0);
     std::rethrow_exception(exception);
   }
 #endif // __cpp_exceptions
@@ -97,6 +100,7 @@ bool ConcurrentTaskSet::wait() {
       std::this_thread::yield();
     }
   }
+  DISPENSO_VERIF_HOOK("ts.zero", this, 0, 0);
 
   return testAndResetException();
 }
@@ -119,6 +123,7 @@ bool ConcurrentTaskSet::tryWait(size_t maxToExecute) {
   if (outstandingTaskCount_.load(std::memory_order_acquire)) {
     return false;
   }
+  DISPENSO_VERIF_HOOK("ts.zero", this, 1, 0);
 
   return !testAndResetException();
 }
@@ -148,6 +153,7 @@ bool TaskSet::wait() {
       std::this_thread::yield();
     }
   }
+  DISPENSO_VERIF_HOOK("ts.zero", this, 0, 0);
 
   return testAndResetException();
 }
@@ -180,6 +186,7 @@ bool TaskSet::tryWait(size_t maxToExecute) {
   if (outstandingTaskCount_.load(std::memory_order_acquire)) {
     return false;
   }
+  DISPENSO_VERIF_HOOK("ts.zero", this, 1, 0);
 
   return !testAndResetException();
 }
